@@ -226,10 +226,10 @@ func init() {
 			// protocol -> Istcp / Proto: evaluated for every class of input string (A15)
 			const word = 1
 			type inCase struct {
-				in        cv
-				proto     cv
-				istcp     int64
-				what      string
+				in    cv
+				proto cv
+				istcp int64
+				what  string
 			}
 			atom := func(n int, tail bool) cv { return cv{k: 's', atom: word, alen: n, tail: tail} }
 			cases := []inCase{
